@@ -476,7 +476,36 @@ def r5(cx):
                     copies.add(s['lhs']['l'])
                     changed = True
 
+    def tuple_field(org):
+        """`match (was_suspended, is_suspended) {..}` tests the fields of a tuple temporary: the origin of the operand the tuple was
+        built from (the tuple is built once and never borrowed mutably, so the field still holds that value at the test)."""
+        pl = org.get('pl') if org.get('k') in ('place', 'discr') else None
+        proj = (pl or {}).get('p') or []
+        if not proj or not isinstance(proj[0], dict) or 'f' not in proj[0] or not str(proj[0]['f']).isdigit():
+            return org
+        d = du.single_def(pl['l'])
+        if d is None or d[1] == 't' or d[2]['k'] != 'assign' or d[2]['rv']['k'] != 'agg' or d[2]['rv'].get('ak') != 'tuple':
+            return org
+        if any(s['k'] == 'assign' and s['rv']['k'] in ('ref', 'rawptr') and s['rv']['pl']['l'] == pl['l'] and s['rv'].get('mut')
+               for blk, j, s in body.stmts()):
+            return org
+        ops = d[2]['rv']['ops']
+        n = int(proj[0]['f'])
+        if n >= len(ops):
+            return org
+        src = du.origin(ops[n])
+        if len(proj) == 1 and org['k'] == 'place':
+            return src
+        # deeper projection / discriminant of the field (`(_, _, ProcessState::Running)`): keep the test, rebased on the field's source
+        sp = src.get('pl') if src.get('k') == 'place' else ({'l': src['l']} if src.get('k') == 'arg' else None)
+        if sp is None:
+            return org
+        return dict(org, pl={'l': sp['l'], 'p': (sp.get('p') or []) + proj[1:]})
+
     def state_derived(org):
+        org = tuple_field(org)
+        if org['k'] == 'arg':
+            return org['l'] in copies
         if org['k'] == 'call':
             if Q.callee_is(org['t'], SUSPENDED_TESTS):
                 return False
@@ -510,6 +539,7 @@ def r5(cx):
         # (`was_suspended == is_suspended`, `!=`, `^`) relates them; a value follows from the other one through the relation
         known, rel, when_of = {}, [], {}
         for org, lab, e in cs:
+            org = tuple_field(org)
             org, lab = Q.peel_not(du, org, lab)
             if not lab or lab[0] != 'bool':
                 continue
@@ -1076,26 +1106,71 @@ def r8b(cx):
 def r10(cx):
     F = cx.F
     n = 0
-    for b0, blk0, t0 in F.callers_of(lambda names, t: JOBLIST + '::insert' in names):
-        if b0.crate != 'yash_env' or not b0.root.startswith('yash_env::job::') or b0.root.startswith(JOBLIST):
+    STOP_TEST = [re.compile(r'job::(ProcessResult|ProcessState)::is_stopped$')]
+
+    def known_stopped(body, du, blk):
+        conds = Q.implied_conditions(F, body, du, blk)
+        return any((org['k'] == 'call' and Q.callee_is(org['t'], STOP_TEST) and lab == ('bool', True))
+                   or (org['k'] == 'discr' and 'ProcessResult' in (org.get('ty') or '') and lab == ('variant', 'Stopped'))
+                   for org, lab, e in conds)
+
+    def only_called_when_stopped(root):
+        """The insertion was extracted into a private helper of yash_env::job that F.inlined does not splice (generic, takes a closure):
+        the helper is the recorder when it is called at least once and every call of it - all inside yash_env::job - sits on a
+        "the process result is Stopped" edge of its caller."""
+        info = F.fns.get(root)
+        if info is None or info.get('vis') == 'pub' or info.get('async'):
+            return False
+        sites = F.callers_of(lambda names, t: root in names)
+        kept = 0
+        for cb, cblk, ct in sites:
+            if cb.crate != 'yash_env' or not cb.root.startswith('yash_env::job::') or cb.root == root:
+                return False
+            cbody = F.inlined(F.main_body(cb.root))
+            if cbody.fn != cb.fn:
+                # the call is inside a closure of the caller: decide it in that body as it stands
+                cbody = cb
+            cdu = Q.DefUse(cbody)
+            calls = Q.find_calls(cbody, [root])
+            if not calls:
+                continue        # spliced into this caller by F.inlined: the insertion is examined in place there
+            if not all(known_stopped(cbody, cdu, b) for b, t in calls):
+                return False
+            kept += 1
+        return kept > 0
+
+    def in_scope(b):
+        return b.crate == 'yash_env' and b.root.startswith('yash_env::job::') and not b.root.startswith(JOBLIST)
+
+    cands = [b0 for b0, blk0, t0 in F.callers_of(lambda names, t: JOBLIST + '::insert' in names) if in_scope(b0)]
+    # the functions of yash_env::job that reach the insertion through a private helper of the module (F.inlined splices the helper
+    # into them, so the insertion is examined in place under their tests)
+    helpers = {b0.root for b0 in cands if b0.fn == b0.root and (F.fns.get(b0.root) or {}).get('vis', 'pub') != 'pub'}
+    if helpers:
+        cands += [cb for cb, cblk, ct in F.callers_of(lambda names, t: any(h in names for h in helpers)) if in_scope(cb)]
+    seen = set()
+    for b0 in cands:
+        if b0.root in seen:
             continue
+        seen.add(b0.root)
         body = F.inlined(F.main_body(b0.root))
         du = Q.DefUse(body)
+        via_helper = None
         for blk, t in Q.find_calls(body, [JOBLIST + '::insert']):
             # only insertions of a job known to be stopped (the recorder of a suspended foreground command)
-            conds = Q.implied_conditions(F, body, du, blk)
-            stopped = any((org['k'] == 'call' and Q.callee_is(org['t'], [re.compile(r'job::(ProcessResult|ProcessState)::is_stopped$')]) and lab == ('bool', True))
-                          or (org['k'] == 'discr' and 'ProcessResult' in (org.get('ty') or '') and lab == ('variant', 'Stopped'))
-                          for org, lab, e in conds)
-            if not stopped:
-                continue
+            if not known_stopped(body, du, blk):
+                if via_helper is None:
+                    via_helper = b0.fn == b0.root and only_called_when_stopped(b0.root)
+                if not via_helper:
+                    continue
             n += 1
             cx.fn(body.fn)
             idx = Q.forward_taint(body, {t['dest']['l']})
             setters = {sb for sb, st in Q.find_calls(body, [JOBLIST + '::set_current_job'])
                        if any((Q.operand_place(a) or {}).get('l') in idx for a in st['a'][1:])}
             p = Q.must_pass(body, [t['to']], setters) if t.get('to') is not None else None
-            cx.site('%s: stopped job inserted at %s; made the current job on every path: %s' % (body.root, body.loc(t), p is None and bool(setters)))
+            cx.site('%s: stopped job inserted at %s%s; made the current job on every path: %s'
+                    % (body.root, body.loc(t), ' (private helper, called only for a stopped process)' if via_helper else '', p is None and bool(setters)))
             if not setters or p is not None:
                 cx.violation(body.root, 'suspended-job-not-made-current', '%s records a just-suspended foreground command with JobList::insert only: '
                              'with two jobs already suspended the new job gets neither `%%+` nor `%%-`, so `fg` / `bg` without operand and `%%%%` '
